@@ -161,27 +161,106 @@ Proof.
     destruct (Nat.ltb_spec i (length r0)) as [_|]; [|unfold rsz in *; lia]. cbn [andb].
     destruct (Htop ltac:(lia)) as (Hlo & Ham & Hg).
     rewrite Hc3. destruct (Z.ltb_spec lo 0) as [_|]; [|lia].
-    rewrite M1, Ham. unfold V, asz. rewrite car_above.
-    rewrite (dig_above lsh a (length a + gap) (res_end - 1 - i)) by (try lia; intros; lia).
-    rewrite dgz_nonneg by (fold asz; unfold zn in *; lia).
-    f_equal. fold asz. unfold zn in *. lia.
+    rewrite M1, Ham.
+    pose proof (car_above lsh a gap) as CA. fold asz V in CA. rewrite CA. clear CA.
+    pose proof (dig_above lsh a (asz + gap) (res_end - 1 - i) (fun _ : nat => 0 * 2 ^ lsh)
+                  ltac:(unfold asz; lia) ltac:(intros; lia)) as DA. fold V in DA. rewrite DA. clear DA.
+    rewrite dgz_nonneg by (unfold zn in *; lia).
+    f_equal. unfold zn in *. lia.
   - rewrite M3, Z1. fold rsz.
     destruct (Nat.ltb_spec i res_start) as [Hmd|Hmd].
     + (* limbs computed from a *)
       destruct (Nat.leb_spec (res_start - mid) i) as [_|]; [|lia].
       destruct (Nat.ltb_spec i rsz) as [_|]; [|unfold rsz in *; lia]. cbn [andb].
       rewrite Z.add_0_l.
-      rewrite (dig_mid lsh a a_start a_out mid (res_start - 1 - i) S1 eq_refl S2) by lia.
-      fold V. specialize (Hpos_mid ltac:(lia)).
+      pose proof (dig_mid lsh a a_start a_out mid (res_start - 1 - i) S1 eq_refl S2 ltac:(lia)) as DM.
+      fold V in DM. rewrite DM. clear DM. specialize (Hpos_mid ltac:(lia)).
       rewrite dgz_nonneg by (unfold zn in *; lia).
       f_equal. unfold zn in *. lia.
     + (* limbs below the precision of a: zero *)
-      replace (Nat.leb (res_start - mid) i && Nat.ltb i res_start && Nat.ltb i rsz)%bool with false
-        by (destruct (Nat.ltb_spec i res_start); [lia|]; rewrite Bool.andb_false_r; reflexivity).
-      rewrite Z2.
+      rewrite Bool.andb_false_r. cbn [andb]. rewrite Z2.
       destruct (Nat.leb_spec res_start i) as [_|]; [|lia].
       destruct (Nat.ltb_spec i rsz) as [_|]; [|unfold rsz in *; lia]. cbn [andb].
       rewrite dgz_neg; [reflexivity|]. apply Hzero; lia.
 Qed.
 
 End Inter.
+
+Lemma Forall_of_nth (Q : Z -> Prop) (l : list Z) :
+  (forall i, (i < length l)%nat -> Q (nthZ l i)) -> Forall Q l.
+Proof.
+  intros Hn. apply Forall_forall. intros x Hx.
+  destruct (In_nth l x 0 Hx) as (i & Hi & Ei). rewrite <- Ei. apply Hn; auto.
+Qed.
+
+Lemma dgz_range (b : Z) (v : nat -> Z) (t : Z) : 1 <= b -> in_range b (dgz b v t).
+Proof.
+  intros Hb. unfold dgz. destruct (t <? 0); [|apply dig_range; auto].
+  unfold in_range. pose proof (pow2_pos (b - 1) ltac:(lia)). lia.
+Qed.
+
+(* from a closed form (window of digits at top position T - 1) to the torus statement *)
+Lemma window_value (b P lo lsh : Z) (a out : list Z) : 1 <= b -> 0 <= lsh < b ->
+  (forall i, (i < length out)%nat ->
+     nthZ out i = dgz b (vin a lsh) (zn (length a) - lo - 1 - zn i)) ->
+  zn (length out) * b + zn (length a) * b + Z.abs (lo * b + lsh) <= P ->
+  let D := tor_abs P (val_scaled P b out - val_scaled (P + (lo * b + lsh)) b a) in
+  D <= 2 ^ (P - zn (length out) * b) /\
+  (zn (length a) * b - (lo * b + lsh) <= zn (length out) * b -> D = 0).
+Proof.
+  intros Hb Hl Hn HP. cbv zeta.
+  set (A := zn (length a)) in *. set (R := zn (length out)) in *.
+  assert (HA : 0 <= A) by (unfold A, zn; lia). assert (HR : 0 <= R) by (unfold R, zn; lia).
+  assert (HP0 : 0 <= P) by nia.
+  set (T := A - lo). set (E := P - T * b).
+  assert (Hexact : A * b - (lo * b + lsh) <= R * b -> T <= R) by (unfold T; nia).
+  destruct (Z_le_gt_dec 0 E) as [HE|HE].
+  - assert (Hval : val_scaled P b out = dval P b (vin a lsh) T (length out)).
+    { rewrite val_scaled_sumn. unfold dval. apply sumn_ext. intros i Hi. rewrite Hn by auto.
+      f_equal. }
+    rewrite Hval, (val_scaled_vin b P lo lsh a Hb ltac:(lia) HE). fold A T E.
+    destruct (dval_value b Hb (vin a lsh) (length a) (fun t Ht => vin_zero a lsh t Ht) P T (length out)
+                ltac:(fold R; nia) HE) as (delta & Y & H1 & H2 & H3).
+    fold E in H1. rewrite H1, tor_abs_add_mul by auto. fold R in H2, H3.
+    split.
+    + pose proof (tor_abs_le P delta HP0). lia.
+    + intros Hx. rewrite H3 by auto. apply tor_abs_0; auto.
+  - (* only possible when the output is empty and something is truncated *)
+    assert (R = 0) by (unfold E, T in HE; nia).
+    split.
+    + replace (P - R * b) with P by nia. apply tor_abs_le_unit; auto.
+    + intros Hx. specialize (Hexact Hx). unfold E in HE. nia.
+Qed.
+
+Section InterValue.
+Variable b : Z.
+Hypothesis Hb : 1 <= b <= 62.
+
+Theorem normalize_inter_value (off : Z) (a r0 : list Z) :
+  Forall (fun x => Z.abs x <= 2 ^ 62) a ->
+  let out := normalize_inter 64 b off a r0 in
+  length out = length r0 /\
+  Forall (in_range b) out /\
+  out = normalize_inter 64 b off a (zeros (length r0)) /\
+  forall P, zn (length r0) * b + zn (length a) * b + Z.abs off <= P ->
+    let D := tor_abs P (val_scaled P b out - val_scaled (P + off) b a) in
+    D <= 2 ^ (P - zn (length r0) * b) /\
+    (zn (length a) * b - off <= zn (length r0) * b -> D = 0).
+Proof.
+  intros HF. apply hrl_of_Forall in HF. cbv zeta.
+  destruct (normalize_inter_nth b Hb off a r0 HF) as [L1 N1].
+  destruct (normalize_inter_nth b Hb off a (zeros (length r0)) HF) as [L2 N2].
+  rewrite zeros_length in L2, N2.
+  split; [exact L1|]. split; [|split].
+  - apply Forall_of_nth. intros i Hi. rewrite N1 by lia. apply dgz_range; lia.
+  - apply list_eq_nth; [lia|]. intros i Hi. rewrite N1, N2 by lia. reflexivity.
+  - intros P HP.
+    pose proof (Z.div_mod off b ltac:(lia)) as Hoff.
+    assert (Hl : 0 <= off mod b < b) by (apply Z.mod_pos_bound; lia).
+    assert (Eo : off / b * b + off mod b = off) by lia.
+    pose proof (window_value b P (off / b) (off mod b) a (normalize_inter 64 b off a r0)
+                  ltac:(lia) Hl ltac:(intros i Hi; apply N1; lia)) as W.
+    rewrite Eo, L1 in W. apply W. exact HP.
+Qed.
+
+End InterValue.
